@@ -49,8 +49,38 @@ pub fn unit(r: anyhow::Result<()>) -> CallRes {
     Ok(r.map(|_| Value::Null))
 }
 
+/// JSON cannot carry NaN / infinities: the harness sends the tokens "__NaN__", "__+inf__", "__-inf__" and the value is rebuilt
+/// through serde_yaml, which can
+fn to_yaml_special(v: &Value) -> serde_yaml::Value {
+    use serde_yaml::Value as Y;
+    match v {
+        Value::Null => Y::Null,
+        Value::Bool(b) => Y::Bool(*b),
+        Value::Number(n) => {
+            if let Some(i) = n.as_i64() { Y::Number(i.into()) } else if let Some(u) = n.as_u64() { Y::Number(u.into()) } else { Y::Number(n.as_f64().unwrap_or(0.0).into()) }
+        }
+        Value::String(s) => match s.as_str() {
+            "__NaN__" => Y::Number(f64::NAN.into()),
+            "__+inf__" => Y::Number(f64::INFINITY.into()),
+            "__-inf__" => Y::Number(f64::NEG_INFINITY.into()),
+            _ => Y::String(s.clone()),
+        },
+        Value::Array(a) => Y::Sequence(a.iter().map(to_yaml_special).collect()),
+        Value::Object(o) => Y::Mapping(o.iter().map(|(k, v)| (Y::String(k.clone()), to_yaml_special(v))).collect()),
+    }
+}
+
+pub fn de_special<T: DeserializeOwned>(v: &Value) -> Result<T, String> {
+    let txt = v.to_string();
+    if txt.contains("__NaN__") || txt.contains("inf__") {
+        serde_yaml::from_value(to_yaml_special(v)).map_err(|e| e.to_string())
+    } else {
+        serde_json::from_value(v.clone()).map_err(|e| e.to_string())
+    }
+}
+
 pub fn run<T: DeserializeOwned + Serialize>(req: &Value, call: fn(&mut T, &str, &[Value]) -> CallRes) -> Value {
-    let mut obj: T = match serde_json::from_value(req["recv"].clone()) {
+    let mut obj: T = match de_special(&req["recv"]) {
         Ok(o) => o,
         Err(e) => return json!({"kind": "unsupported", "msg": format!("deserialize: {e}")}),
     };
@@ -173,6 +203,7 @@ fn call_consist(o: &mut Consist, fname: &str, a: &[Value]) -> CallRes {
         "<Consist as Mass>::mass" => Ok(o.mass().map(|m| json!(m.map(|x| x.get::<si::kilogram>())))),
         "Consist::force_max" => Ok(o.force_max().map(|x| json!(x.get::<si::newton>()))),
         "Consist::set_pwr_aux" => unit(o.set_pwr_aux(ob(&a[0]))),
+        "Consist::verif_set_n_res_equipped" => { o.verif_set_n_res_equipped(a[0].as_u64().map(|x| x as u8)); Ok(Ok(Value::Null)) }
         "Consist::set_cur_pwr_max_out" => unit(o.set_cur_pwr_max_out(of(&a[0]).map(|x| x * uc::W), f(&a[1]) * uc::S)),
         "Consist::solve_energy_consumption" => unit(o.solve_energy_consumption(f(&a[0]) * uc::W, f(&a[1]) * uc::S, ob(&a[2]))),
         _ => Err(Unsup(format!("no runner entry for {fname}"))),
